@@ -465,6 +465,13 @@ theorem C07_content_qmtp (cfg : Qmtp.Cfg) (inp : Bytes) (w : Option Nat) (e : QE
   · rw [hc.1, stream_pf mops h1, h4]
   · rw [hc.2, h6, h5]; exact envelope_eq sbuf _
 
+/-- **C07_content (QMTP, the decoded body).**  The `stored` bytes of `C07_content_qmtp` are the framed bytes after the mode
+    byte: verbatim for LF framing, with every CR LF turned into LF (`Spec.undos`) for CR framing. -/
+theorem C07_content_qmtp_decoded (cfg : Qmtp.Cfg) (inp : Bytes) (h : (Qmtp.msg cfg inp).stop = none) :
+    ∃ len c r1, Netstring.getlen Nq.Gen.C07.qmtpLenMax 0 inp = .ok len (c :: r1) ∧ len ≠ 0 ∧ (c = LF ∨ c = CR) ∧
+      (Qmtp.msg cfg inp).stored = (if c = CR then Nq.Spec.C07.undos (r1.take (len - 1)) else r1.take (len - 1)) :=
+  Qmtp.msg_decoded cfg inp h
+
 /-- **C07_content (QMQP).** -/
 theorem C07_content_qmqp (cfg : Qmqp.Cfg) (inp : Bytes) (w : Option Nat) (e : QEnd)
     (ht : TextOK e.text ∨ e.text.length ≤ 2)
@@ -506,7 +513,70 @@ theorem C07_content_smtp (cfg : Smtp.Cfg) (helo : Option Bytes) (mailfrom : Byte
     have : stream [QOp.put (entries rs)] = entries rs := by simp [stream]
     rw [this]; exact envelope_eq _ _
 
-/-! ## 6. the known gap in qmail-qmtpd's recipient lengths -/
+/-! ## 6. cut: the client disconnects at any byte before the message is complete -/
+
+/-- **C07_cut (QMTP).**  Let a message be complete after `k = |inp| - |rest|` bytes.  If the client sends only the first
+    `j < k` bytes and disconnects, qmail-qmtpd exits inside the message (`stop ≠ none`): it sends nothing (no
+    acknowledgement), it never calls `qmail_close`, and what the queue program finds on descriptor 1 is not a complete
+    envelope — for every write-fault schedule and every scripted end of the queue program. -/
+theorem C07_cut_qmtp (cfg : Qmtp.Cfg) (inp : Bytes) (w : Option Nat) (ends : List QEnd) (pids : List Nat)
+    (h : (Qmtp.msg cfg inp).stop = none) (j : Nat) (hj : j < inp.length - (Qmtp.msg cfg inp).rest.length) :
+    (Qmtp.msg cfg (inp.take j)).stop ≠ none ∧
+    (Qmtp.run cfg w ends pids (inp.take j)).out = [] ∧
+    envComplete ((QQ.opened w).run (Qmtp.msg cfg (inp.take j)).ops).envPipe = false := by
+  have hs := Qmtp.msg_prefix cfg inp h j hj
+  refine ⟨hs, ?_, QQ.no_close_no_envelope w _ (Qmtp.msg_stopped cfg _ hs)⟩
+  unfold Qmtp.run Qmtp.session
+  cases hst : (Qmtp.msg cfg (inp.take j)).stop with
+  | none => exact absurd hst hs
+  | some ex => simp [hst, Sub.flush]
+
+/-- **C07_cut (QMQP).** -/
+theorem C07_cut_qmqp (cfg : Qmqp.Cfg) (inp : Bytes) (w : Option Nat) (e : QEnd) (pid : Nat)
+    (h : (Qmqp.parse cfg inp).stop = none) (j : Nat) (hj : j < inp.length - (Qmqp.parse cfg inp).rest.length) :
+    (Qmqp.parse cfg (inp.take j)).stop ≠ none ∧
+    (Qmqp.run cfg w e pid (inp.take j)).out = [] ∧
+    envComplete ((QQ.opened w).run (Qmqp.parse cfg (inp.take j)).ops).envPipe = false := by
+  have hs := Qmqp.parse_prefix cfg inp h j hj
+  refine ⟨hs, ?_, QQ.no_close_no_envelope w _ (Qmqp.parse_stopped cfg _ hs)⟩
+  unfold Qmqp.run
+  cases hst : (Qmqp.parse cfg (inp.take j)).stop with
+  | none => exact absurd hst hs
+  | some ex => simp [hst]
+
+/-- **C07_cut (SMTP, inside DATA).**  If DATA is terminated after `k` bytes of the stream and the client sends only
+    `j < k` of them, smtp_data() never reaches `qmail_from`/`qmail_close` (it dies in `die_read`/`straynewline`, so the
+    reply after DATA — the only place an acknowledgement is produced, `C07_smtp_ack` — is never computed) and the queue
+    program's descriptor 1 holds no complete envelope. -/
+theorem C07_cut_smtp (cfg : Smtp.Cfg) (helo : Option Bytes) (mailfrom rcptto inp : Bytes) (w : Option Nat)
+    (h : (Smtp.data cfg helo mailfrom rcptto inp).stop = none) (j : Nat)
+    (hj : j < inp.length - (Smtp.data cfg helo mailfrom rcptto inp).rest.length) :
+    (Smtp.data cfg helo mailfrom rcptto (inp.take j)).stop ≠ none ∧
+    envComplete ((QQ.opened w).run (Smtp.data cfg helo mailfrom rcptto (inp.take j)).ops).envPipe = false := by
+  have hs := Smtp.data_prefix cfg helo mailfrom rcptto inp h j hj
+  exact ⟨hs, QQ.no_close_no_envelope w _ (Smtp.data_stopped cfg helo mailfrom rcptto _ hs)⟩
+
+/-- … and more generally, whenever a daemon model exits inside a message (EOF, badproto, resources, die_read, stray LF)
+    nothing complete has reached the queue program's descriptor 1 -/
+theorem C07_stopped_no_envelope (w : Option Nat) :
+    (∀ (cfg : Qmtp.Cfg) (inp : Bytes), (Qmtp.msg cfg inp).stop ≠ none →
+        envComplete ((QQ.opened w).run (Qmtp.msg cfg inp).ops).envPipe = false) ∧
+    (∀ (cfg : Qmqp.Cfg) (inp : Bytes), (Qmqp.parse cfg inp).stop ≠ none →
+        envComplete ((QQ.opened w).run (Qmqp.parse cfg inp).ops).envPipe = false) ∧
+    (∀ (cfg : Smtp.Cfg) (helo : Option Bytes) (mf rt inp : Bytes), (Smtp.data cfg helo mf rt inp).stop ≠ none →
+        envComplete ((QQ.opened w).run (Smtp.data cfg helo mf rt inp).ops).envPipe = false) :=
+  ⟨fun cfg inp h => QQ.no_close_no_envelope w _ (Qmtp.msg_stopped cfg inp h),
+   fun cfg inp h => QQ.no_close_no_envelope w _ (Qmqp.parse_stopped cfg inp h),
+   fun cfg helo mf rt inp h => QQ.no_close_no_envelope w _ (Smtp.data_stopped cfg helo mf rt inp h)⟩
+
+/-- non-vacuity: complete messages exist for the three models ("3:\\nx\\n,1:s,4:1:r,,", the QMQP request of the same
+    message, "a\\r\\n.\\r\\nQUIT\\r\\n"), each with unread bytes or none behind it -/
+example : (Qmtp.msg { peer := ⟨none, none, none, none, none⟩ } [51, 58, 10, 120, 10, 44, 49, 58, 115, 44, 52, 58, 49, 58, 114, 44, 44]).stop = none := by decide
+example : (Qmqp.parse { peer := ⟨none, none, none, none, none⟩ } [49, 51, 58, 50, 58, 120, 10, 44, 49, 58, 115, 44, 49, 58, 114, 44, 44]).stop = none := by decide
+example : (Smtp.data { peer := ⟨none, none, none, none, none⟩ } none [115] (entries [[114]]) [97, 13, 10, 46, 13, 10, 81, 85, 73, 84, 13, 10]).stop = none ∧
+    (Smtp.data { peer := ⟨none, none, none, none, none⟩ } none [115] (entries [[114]]) [97, 13, 10, 46, 13, 10, 81, 85, 73, 84, 13, 10]).rest.length = 6 := by decide
+
+/-! ## 7. the known gap in qmail-qmtpd's recipient lengths -/
 
 /-- As shipped (`qmtpRcptDigitCheck = 0`, read off qmail-qmtpd.c by the translator) the recipient length loop takes
     any byte for a digit: "1/" counts as 9, "<" as 12. -/
